@@ -29,6 +29,8 @@ structure Entry where
   faces : List (List Nat)
   source : String := ""
   ref : String := ""
+  /-- `short_name` / `short_code` of the record (`""` when absent) -/
+  short : String := ""
 deriving Repr
 
 /-! ### `from_gsd_type_shapes` (the branches a table record can reach) -/
